@@ -324,26 +324,27 @@ def configs(tier, seed):
   """(label, NG, ND, MaxVal, CellMod, CellRes, EligPer, OrdModOK, OrdModBad); one TLC process each."""
   out = []
   if tier == 'thorough':
-    nproc, mod = 8, 64
+    nproc, mod = 8, 56
     base = seed % mod
     for i in range(nproc):     # together: every 3x3 frame with Hash % mod = base
       out.append(('3x3v2/%d' % i, 3, 3, 2, mod * nproc, base + mod * i, 5, 8, 40))
     out.append(('2x2v2', 2, 2, 2, 1, 0, 6, 2, 6))
-    out.append(('3x2v2', 3, 2, 2, 8, seed % 8, 4, 8, 40))
-    out.append(('2x3v2', 2, 3, 2, 8, seed % 8, 4, 4, 12))
+    out.append(('3x2v2', 3, 2, 2, 6, seed % 6, 4, 8, 40))
+    out.append(('2x3v2', 2, 3, 2, 6, seed % 6, 4, 4, 12))
     out.append(('1x3v2', 1, 3, 2, 1, 0, 8, 1, 1))
   else:
-    out.append(('3x3v2', 3, 3, 2, 2600, seed % 2600, 3, 8, 40))
-    out.append(('3x3v1', 3, 3, 1, 200, seed % 200, 3, 8, 40))
-    out.append(('3x2v2', 3, 2, 2, 48, seed % 48, 3, 8, 40))
-    out.append(('2x3v2', 2, 3, 2, 64, seed % 64, 3, 4, 12))
-    out.append(('2x2v2', 2, 2, 2, 6, seed % 6, 3, 2, 6))
+    out.append(('3x3v2', 3, 3, 2, 2000, seed % 2000, 4, 8, 40))
+    out.append(('3x3v1', 3, 3, 1, 160, seed % 160, 4, 8, 40))
+    out.append(('3x2v2', 3, 2, 2, 40, seed % 40, 4, 8, 40))
+    out.append(('2x3v2', 2, 3, 2, 64, seed % 64, 4, 4, 12))
+    out.append(('2x2v2', 2, 2, 2, 6, seed % 6, 4, 2, 6))
   return out
 
 
 def run_one_tlc(cfg):
   label, ng, nd, mv, cm, cr, ep, ok, badm = cfg
-  text = CFG % (ng, nd, mv, cm, cr, ep, ok, badm, '')
+  # liveness (every behaviour reaches done / a ValueError) is checked on the smallest universe only
+  text = CFG % (ng, nd, mv, cm, cr, ep, ok, badm, 'PROPERTY Terminates' if label == '2x2v2' else '')
   name = 'C15_' + label.replace('/', '_')
   r = tlc.run_tlc('DataPanel', text, tlc.run_dir(name), workers=1, timeout=3000,
                   java_opts=['-XX:ParallelGCThreads=2', '-Xmx3g'])
@@ -463,7 +464,7 @@ def run(res):
               '(geo NG+1 is never in the frame), geo index = any injective sequence over 1..NG+1. Sampled deterministically '
               'inside TLA+ (no randomness in TLC): a frame is taken iff HashCells(frame) % CellMod = CellRes (CellRes = seed % CellMod; '
               'thorough: the 3x3 residue class is split over 8 TLC processes), per frame "no table" plus EligPer tables '
-              'TableOf((HashCells*37 + j*1031 + 7j^2) % 8^(NG+1)), j = 1..EligPer, the dtype by hash parity, per accepted construction '
+              'TableOf(Mix(Mix(HashCells, j), j+5) % 8^(NG+1)), j = 1..EligPer, the dtype by hash parity, per accepted construction '
               'the order "rows of .df that are assignable" plus every legal order with Mix(StateHash, hash(order)) % OrdModOK = 0 and every illegal '
               'one with ... % OrdModBad = 0 (constants per run under tlc_configs). One case = one emitted (frame, dtype, table, order) '
               'behaviour (rejected constructions have no order); distinct = distinct cases replayed, each against the real code with '
